@@ -118,7 +118,10 @@ class Data(object):
             for i in range(0, len(lat)):
                 currLat = float(lat[i])
                 currLon = float(lon[i])
-                if currLat >= min_lat and currLat <= max_lat and currLon >= min_lon and currLon <= max_lon:
+                # Only apply the ranges that are given (longitudes may be stored as 0..360)
+                inside_lat = lat_range is None or (currLat >= min_lat and currLat <= max_lat)
+                inside_lon = lon_range is None or (currLon >= min_lon and currLon <= max_lon)
+                if inside_lat and inside_lon:
                     latlon_locations.append(loc_id[i])
             use_locations = list()
             if locations is not None:
